@@ -408,7 +408,10 @@ func c10Run(p *harness.Proxy, binary bool, port int, prog c10Program, tier int, 
 		ack = "unknown"
 	case prog.Target.QuietSet:
 		if obs.Replies == 0 {
-			ack = "unknown" // silence of a quiet command acknowledges nothing
+			// the sentinel that followed was answered and no error reply came first: for a quiet
+			// command that silence IS the acknowledgement
+			ack = "ok"
+			res.Acked = true
 		}
 	case obs.Class == "ok" && obs.Replies >= 1:
 		ack = "ok"
@@ -434,6 +437,43 @@ func c10Run(p *harness.Proxy, binary bool, port int, prog c10Program, tier int, 
 		res.Witness["stderr_tail"] = lastLines(p.Stderr(), 40)
 		res.Restart = true
 		return res
+	}
+	// the faulted connection itself, if it was not closed, stays usable and in sync: follow-up
+	// requests on it terminate and return the correct value or a miss
+	if obs.Class != "closed" {
+		for fi, k := range []string{"kb", "ka", "kfollow"} {
+			fc := wire.Cmd{Op: "get", Keys: []string{k}, Opaque: 0x500 + uint32(fi)}
+			fr, ferr := cl.Do(fc)
+			if ferr != nil {
+				if errors.Is(ferr, wire.ErrWatchdog) {
+					cl.Conn.SetReadDeadline(time.Now().Add(15 * time.Second))
+					if _, perr := cl.R.Peek(1); perr == nil || !errors.Is(mapTimeout(perr), wire.ErrWatchdog) {
+						res.Inconcl = "follow-up reply arrived only after the watchdog"
+						res.Restart = true
+						return res
+					}
+					res.Witness["goroutines"] = lastLines(filterDump(p.GoroutineDumpKill()), 60)
+					res.Restart = true
+					res.Hang = true
+					res.Bad = "a later request on the faulted connection never terminates (backend stream out of step)"
+					return res
+				}
+				if errors.Is(ferr, wire.ErrMalformed) {
+					res.Bad = "malformed reply to a later request on the faulted connection"
+					return res
+				}
+				break
+			}
+			if fr.Class == "closed" {
+				res.Witness["follow_up_closed_at"] = fc.Short()
+				break
+			}
+			if d := pm.judgeRead(k, fr.Values); d != "" {
+				res.Bad = "later request on the faulted connection: " + d
+				res.Witness["follow_up_reply"] = brief(fr)
+				return res
+			}
+		}
 	}
 	// the bystander connection is unaffected
 	r1, e1 := by.Do(wire.Cmd{Op: "get", Keys: []string{"bystander"}, Opaque: 0x301})
